@@ -320,6 +320,8 @@ class ModelsMixin:
         d, m = base.dep | idx.dep, base.mdep | idx.mdep
         if base.dmap is not None and idx.const is not None:
             hits = [v for k, v in base.dmap if k in idx.const]
+            if any(isinstance(c, tuple) and c and c[0] == "sym" for c in idx.const):
+                hits = [v for _, v in base.dmap]  # "the parameter itself" is an unknown key: every entry is possible
             if hits:
                 res = join(res, joinall(hits).add_dep(d, EMPTY))
                 return res
